@@ -591,16 +591,23 @@ def run_c09(chk):
     sessions = []
     ntok_cache = {}
 
-    def ntokens(text):
+    def tokinfo(text):
         if text not in ntok_cache:
             toks, _, _ = parse_tok_resp(h.cmd("tok", 0, esc(text.encode())))
-            ntok_cache[text] = len(toks or [])
+            ntok_cache[text] = (len(toks or []), sum(1 for t in (toks or []) if t[0] == "If"))
         return ntok_cache[text]
+
+    def ntokens(text):
+        return tokinfo(text)[0]
 
     extra_programs = [["10 GOTO 10"], ["10 PRINT \"A\":PRINT \"B\"", "20 GOTO 10"], ["10 FOR I = 1 TO 1000000 : NEXT I"],
                       ["10 IF 1 THEN IF 1 THEN IF 1 THEN PRINT 1 : PRINT 2", "20 GOTO 10"],
                       ["10 IF 0 THEN " + "X = 1 : " * 40 + "X = 2", "20 GOTO 10"],
-                      ["10 DEF F(X) = " + "X + " * 60 + "1 : PRINT 5", "20 GOTO 10"]]
+                      ["10 DEF F(X) = " + "X + " * 60 + "1 : PRINT 5", "20 GOTO 10"],
+                      # statements that follow a DEF on its line are statements of their own (seeded change C09-mut7)
+                      ["10 DEF FN A(X) = X + 1: PRINT \"ONE\": PRINT \"TWO\"", "20 DEF G(Y) = Y : Z = 1 : Z = 2 : GOTO 10"],
+                      # a long run of comment lines: falling off a line moves to the next line, not over many (C09-mut8)
+                      ["10 PRINT 1"] + [f"{20 + k} REM x" for k in range(90)] + ["900 PRINT 2"]]
     for i in range(n + len(extra_programs)):
         r = chk.rng.fork(("c09", i))
         if i < len(extra_programs):
@@ -634,6 +641,12 @@ def run_c09(chk):
                 chk.fail("turn-spans-lines", f"one call produced trace records of several lines: {traces}", rep)
             if len(prints) > 1:
                 chk.fail("turn-many-statements", f"one call produced {len(prints)} Print records", rep)
+            # one trace record per statement dispatched: the statement of the call plus one per IF that selected a clause
+            if traces:
+                ifs = tokinfo(lines.get(int(traces[0][1:]), ""))[1]
+                if len(traces) > 1 + ifs:
+                    chk.fail("turn-many-statements", f"one call dispatched {len(traces)} statements of line {traces[0][1:]} "
+                             f"({lines.get(int(traces[0][1:]), '')[:60]!r}, {ifs} IF tokens)", rep)
             # work bound for programs without user-defined functions
             if not uses_fn and traces:
                 ln = int(traces[0][1:])
